@@ -201,6 +201,24 @@ pub fn state<T: Q, const N: usize>(pre: Pre, tables: Tables) -> (T, Ghost<N>) {
     (q, g)
 }
 
+/// A queue as a caught panic inside the predicate of `retain*` leaves it: heap, qp and the
+/// counter agree with each other (N entries), the map holds only the first `M` entries.
+pub fn build_short<T: Q, const N: usize>(g: &Ghost<N>, m: usize) -> T {
+    let mut entries = Vec::with_capacity(N + 2);
+    let mut heap = Vec::with_capacity(N + 2);
+    let mut qp = Vec::with_capacity(N + 2);
+    let mut s = 0;
+    while s < N {
+        if s < m {
+            entries.push((Item::new(g.key[s], g.pay[s]), Pr(g.prio[s])));
+        }
+        heap.push(g.heap[s]);
+        qp.push(g.qp[s]);
+        s += 1;
+    }
+    T::from_raw(mk_map::<T::H>(entries, N + 2), heap, qp, N)
+}
+
 /// pre-state with a chosen amount of unused capacity (0: the next insertion reallocates)
 pub fn state_spare<T: Q, const N: usize>(pre: Pre, tables: Tables, spare: usize) -> (T, Ghost<N>) {
     let g = ghost::<N>(T::DOUBLE, pre, tables);
